@@ -55,7 +55,7 @@ def case(draw):
     cif = None
     if kind == "format" and draw(st.integers(0, 3)) == 0:
         # the same relation on mmCIF input (multi-character chain ids in half of these)
-        cif = dict(multi=draw(st.integers(0, 2)) > 0)
+        cif = dict(multi=draw(st.integers(0, 2)) > 0, bigseq=draw(st.booleans()))
         for ch in desc["chains"]:
             ch.pop("altmod", None)
     return dict(part="opts", kind=kind, desc=desc, ff=ff, base=base, extra=extra, tit=tit, cif=cif)
